@@ -445,8 +445,8 @@ impl Property for C03 {
     }
     fn cases(&self, tier: Tier) -> usize {
         match tier {
-            Tier::Quick => 3000,
-            Tier::Thorough => 60000,
+            Tier::Quick => 9000,
+            Tier::Thorough => 72000,
         }
     }
     fn tape_len(&self, _t: Tier) -> usize {
